@@ -54,7 +54,10 @@ def sig_positions(tokens):
 
 WARMUP = (b'lives = 3\nfunction _update()\n if (btn(4)) lives -= 1\nend\n',
           b'w = window\n  :size(64, 32)\nprint("score: "..score, 0, 0, 7)\nflip()\n',
-          b'for i=1,10 do t[i]=f(i)(i) end if (a) b() else c()\n')
+          b'for i=1,10 do t[i]=f(i)(i) end if (a) b() else c()\n',
+          # programs the parser rejects (the error lies inside a short-if, a call, a block): a failed parse must not
+          # change how the next program is parsed
+          b'if (a) x =\ny = 2\n', b'if (a) b() else c(\n', b'function f(\n', b'x = {1, 2\ny = 3\n', b'while a do if (b) c(\n')
 
 
 class _Parsed:
@@ -79,7 +82,10 @@ def parse(src, chunks, how):
     for w in WARMUP:
         lx = lexer.Lexer(version=8)
         lx.process_lines([w])
-        p.process_tokens(lx.tokens)
+        try:
+            p.process_tokens(lx.tokens)
+        except parser.ParserError:
+            pass
     lx = lexer.Lexer(version=8)
     lx.process_lines(chunks if chunks is not None else [src])
     p.process_tokens(lx.tokens)
